@@ -44,6 +44,7 @@ def run_iter(obj, m, bitlen, padding):
               raised='', blocks=[], cnts=[])
     kw = {'padding': padding}
     if bitlen is not None: kw['bitlen'] = bitlen
+    elif len(m) % 3 == 1: kw['bitlen'] = None              # "omitted" spelled as an explicit None (the way the hash front-ends forward it)
     try:
         for blk in obj.iterblocks(m, **kw):
             ev['blocks'].append(B(bytes(blk)))
@@ -67,7 +68,7 @@ def run_iter_gen(obj, gen, m, bitlen, padding):
 def run_remove(obj, c):
     ev = dict(op='remove', c=B(c), raised='', out=[])
     try:
-        ev['out'] = B(bytes(obj.remove(c)))
+        ev['out'] = core.SB(obj.remove(c))
     except Exception as e:
         ev['raised'] = type(e).__name__
     return ev
